@@ -4,8 +4,9 @@
    create_instance(obj) copies the mapped fields (user code; its round trip is the user's obligation and is only
    compared on the dataset, see RoundTrip.v).  ToDAOState.memo = [memo]; keep_alive pins every converted object, so
    within (and across) calls no source address is ever recycled -- in the model the source heap is fixed.
-   Not modelled: to_dao_if_subclass_of_alternative_mapping (a DAO BELOW an alternatively mapped parent); such
-   graphs are compared implementation-vs-Spec only. *)
+   A DAO BELOW an alternatively mapped DAO (to_dao_if_subclass_of_alternative_mapping): the parent's mapping object is built
+   from the same object with the memo entry temporarily removed; parent columns come from it, own columns from the object,
+   relationships of both from the same targets -- in the model: the class's own DAO class, user-transformed scalars ([enc]). *)
 From Coq Require Import List ZArith Bool Lia Arith PeanoNat.
 From Krrood Require Import Orm.ObjGraph Orm.ObjGraphWalk.
 Import ListNotations.
@@ -17,11 +18,20 @@ Fixpoint zassoc (c : Z) (l : list (Z * Z)) : option Z :=
   end.
 Definition zmem (c : Z) (l : list Z) : bool := existsb (Z.eqb c) l.
 
-Definition P_todao (alts : list (Z * Z)) : params :=
-  mkParams (fun c => match zassoc c alts with Some m => m | None => c end) (fun _ => None) false true.
+(* DAO class of an object class: the DAO of its mapping class if it has an alternative mapping *)
+Definition cm (alts : list (Z * Z)) (c : Z) : Z := match zassoc c alts with Some m => m | None => c end.
 
-Definition to_dao (alts : list (Z * Z)) (l : lheap) (r : addr) : option (addr * st) :=
-  walk (P_todao alts) (heap_of l) (S (length l)) r st0.
+(* [enc c]: what user code makes of the column values on the way to the DAO -- create_instance of the alternative mapping of
+   class c, or of the alternatively mapped parent for a DAO below one (to_dao_if_subclass_of_alternative_mapping copies the
+   parent columns from the parent's mapping object); the identity for every other class.  The reference fields are carried
+   over one to one (same relationship keys, same targets): that is what "maps faithfully" means for the structure. *)
+Definition P_todao (enc : Z -> list Z -> list Z) (alts : list (Z * Z)) : params :=
+  mkParams (fun c s => (cm alts c, enc c s)) (fun _ _ => None) (fun _ => 0) false true.
+
+Definition to_dao (enc : Z -> list Z -> list Z) (alts : list (Z * Z)) (l : lheap) (r : addr) : option (addr * st) :=
+  walk (P_todao enc alts) (heap_of l) (S (length l)) r st0.
+
+Definition idc : Z -> list Z -> list Z := fun _ s => s.
 
 Lemma zassoc_none c l : zmem c (map fst l) = false -> zassoc c l = None.
 Proof.
